@@ -387,7 +387,7 @@ def h_callback(ctx, d, n, I):
     ctx.claim('default_info_carries_nothing_over', all(bool(ctx.all_eq(a, b)) for a, b in zip(Ya, Yb)))
 
 
-def h_func(ctx, m, n, sym_points=False):
+def h_func(ctx, m, n, sym_points=False, fixed_cores=False, y_last=None):
     """Functional version (als_func), d = 2, rank 1, Chebyshev basis of size n:
     every core update is the exact minimiser of the regularised objective over
     the retained degrees (spy on als_func._optimize_core), shape and ranks are
@@ -402,19 +402,45 @@ def h_func(ctx, m, n, sym_points=False):
         pts = [[-0.5, 0.25], [0.75, -0.125], [0.125, 0.5]][:m]
         X = np.array([[ctx.const(v) for v in row] for row in pts], dtype=object if is_sym(ctx) else float)
     y = vec(ctx, 'y', m)
+    if y_last is not None:
+        # every update is linear in y and the truncation test is relative: fixing the
+        # last value (to 1, -1 and 0 in turn) loses nothing and removes a variable
+        y[m - 1] = ctx.const(y_last)
     lamb = ctx.real('lamb')
     ctx.assume(ctx.gt(lamb, 0))
-    A0 = ctx.tt('g', [n] * d, 1)
+    if fixed_cores:
+        # the first update overwrites core 0 and reads core 1 only: fixed rational
+        # initial cores leave y and lamb as the symbolic data (cheap enough for the quick tier)
+        A0 = [np.array([[[ctx.const(v)] for v in row]], dtype=object if is_sym(ctx) else float)
+              for row in ([1, -2, 3][:n], [2, 1, -1][:n])]
+    else:
+        A0 = ctx.tt('g', [n] * d, 1)
     A0c = [G.copy() for G in A0]
     fmod = sys.modules['teneva.als_func']
     real = fmod._optimize_core
     trace = []
+    stack = []
+    thr = 1.E-6
 
     def spy(Q, y_trn, Yl, Yr, Hk, n_max, thr_pow, lamb=None, update_sol=None):
         Qo = Q.copy()
-        nk = real(Q, y_trn, Yl, Yr, Hk, n_max, thr_pow, lamb=lamb, update_sol=update_sol)
+        if stack:
+            stack[-1]['child'] = Qo          # called by the truncation step of the enclosing update
+        frame = {'child': None}
+        stack.append(frame)
+        try:
+            nk = real(Q, y_trn, Yl, Yr, Hk, n_max, thr_pow, lamb=lamb, update_sol=update_sol)
+        finally:
+            stack.pop()
         if Q.shape[1] == Hk.shape[1]:
             trace.append((Qo, Q.copy(), Yl.copy(), Yr.copy(), Hk.copy(), nk))
+        if frame['child'] is not None:
+            # truncated: the trailing slice of this solution was negligible relative to
+            # its largest entry (the child received the leading slices of that solution)
+            last = [abs(v) for v in Q[:, -1, :].reshape(-1)]
+            full = [abs(v) for v in frame['child'].reshape(-1)] + last
+            ctx.claim('truncated_only_if_relatively_negligible',
+                      ctx.lt(ctx.max_(last), ctx.max_(full) * ctx.const(thr)))
         return nk
     fmod._optimize_core = spy
     info = {}
@@ -495,11 +521,14 @@ def instances(tier):
     for I, perm in [(lay2[0], [1, 0]), (lay3[1], [2, 0, 1]), (lay3[7], [1, 2, 0])]:
         out.append({'func': 'h_permutation', 'params': {'d': 2, 'n': 2, 'r': 1, 'I': I, 'perm': perm, 'weighted': True},
                     'opts': {'generic_divisors': True}})
+    # functional version: fixed rational points and initial cores, symbolic values and lamb
+    for yl in (1, -1, 0):
+        out.append({'func': 'h_func', 'params': {'m': 2, 'n': 2, 'fixed_cores': True, 'y_last': yl},
+                    'opts': {'generic_divisors': True}})
     if not quick:
-        # functional version: heavy (2x2 ridge systems with symbolic data, truncation forks): thorough tier
-        out.append({'func': 'h_func', 'params': {'m': 2, 'n': 2}, 'opts': {'generic_divisors': True}})
-        out.append({'func': 'h_func', 'params': {'m': 3, 'n': 2}, 'opts': {'generic_divisors': True}})
-        out.append({'func': 'h_func', 'params': {'m': 2, 'n': 2, 'sym_points': True}, 'opts': {'generic_divisors': True}})
+        # symbolic initial cores / three samples: heavy (2x2 ridge systems with symbolic data, truncation forks)
+        out.append({'func': 'h_func', 'params': {'m': 3, 'n': 2, 'fixed_cores': True, 'y_last': 1}, 'opts': {'generic_divisors': True}})
+        out.append({'func': 'h_func', 'params': {'m': 2, 'n': 2, 'y_last': 1}, 'opts': {'generic_divisors': True}})
     # rank-adaptive mode (d = 3) around the rank contract of matrix_skeleton
     I4 = [[0, 0, 0], [1, 1, 1], [0, 1, 0], [1, 0, 1]]
     for (r, r_add, swap, nswp) in [(1, 1, False, 1), (2, 1, False, 1), (2, 0, False, 1), (2, 1, True, 1), (1, 2, True, 1),
